@@ -282,6 +282,43 @@ def r6_rerooting(ctx):
     calls = [c for c in ast.walk(fn) if isinstance(c, ast.Call) and norm(c.func) == "env.request"]
     ctx.check(all(not any(k.arg == "count" for k in c.keywords) for c in calls), ND + "node_import.py", "ImportNode.parse",
               "an import accepts any number of selected nodes", detail=[norm(c) for c in calls])
+    _relative_names(ctx)
+
+
+def _relative_names(ctx):
+    """`{?path.*}`: a selected descendant keeps its name relative to `path.`, i.e. the name with that *leading* prefix cut
+    off once.  Removing every occurrence of the prefix text (str.replace), stripping a character set (lstrip) or keeping
+    the last piece of a split changes names that contain the prefix text again further down."""
+    import re as _re
+    from ..flowexpr import explore
+    rel = "src/scinumtools/dip/lists/list_nodes.py"
+    fn = ctx.fn(rel, "NodeList.query")
+    ex = explore(fn)
+    what = "a subtree selection cuts the leading parent path off a descendant's name, once"
+    found = 0
+    for lp, start, its in ex.iterations.values():
+        for q in its:
+            pref = None
+            for t in q.tests():
+                m = _re.fullmatch(r"(\w+(?:@loop\d+)?)\.name\.startswith\((.+)\)", norm(t.resolved))
+                if m and t.extra:
+                    pref = (m.group(1), m.group(2))
+            if pref is None:
+                continue
+            v, P = pref
+            names = [norm(e.resolved) for e in q.events if e.kind == "store" and str(e.extra).endswith(".name")]
+            for nm in names:
+                found += 1
+                src = f"(?:{_re.escape(v)}(?:\\.copy\\(\\))?)"
+                cut = (_re.fullmatch(src + r"\.name\[len\(" + _re.escape(P) + r"\):\]", nm) or _re.fullmatch(src + r"\.name\.removeprefix\(" + _re.escape(P) + r"\)", nm))
+                wrong = (".name.replace(" in nm and ", 1)" not in nm) or ".name.lstrip(" in nm or (".name.split(" in nm and nm.endswith("[-1]")) or ".name.strip(" in nm
+                if cut:
+                    ctx.holds(rel, "NodeList.query", what)
+                elif wrong:
+                    ctx.violated(rel, "NodeList.query", what, detail=nm, expected=f"{v}.name[len({P}):]")
+                else:
+                    ctx.form(False, rel, "NodeList.query", what, detail=nm)
+    ctx.form(found >= 1, rel, "NodeList.query", "the renaming of a selected descendant is found on the path where its name starts with the parent path")
 
 
 def r7_slice_once(ctx):
